@@ -262,6 +262,12 @@ Proof.
   - rewrite (ext_val v v' xa He (U4 NE)), (ext_val v v' xb He (U5 NE)). exact Heq.
 Qed.
 
+Lemma getv_ext v v' q x r : getv v q x = Ok r -> extends v v' -> q * val_or0 v' x = r.
+Proof.
+  intros H He. apply getv_spec in H. destruct H as [-> U].
+  destruct (eq_dec q 0) as [->|NE]; [ring|]. rewrite (ext_val v v' x He (U NE)). reflexivity.
+Qed.
+
 Lemma step_sparse_ok i v xa xb xc ql qr qo qm qc v' :
   step_sparse i v xa xb xc ql qr qo qm qc false = Ok v' ->
   extends v v' /\ holds_sparse v' xa xb xc ql qr qo qm qc.
@@ -269,45 +275,66 @@ Proof.
   unfold Solver.step_sparse. cbn [negb].
   destruct (solved F v xa) eqn:Sa; cbn [negb].
   2:{ (* solve for xa *)
-    intros H. bind_ok_as H as f E. destruct (eq_dec (f + ql) 0) as [|ND]; [discriminate|].
-    bind_ok_as H as f0 E0. bind_ok_as H as f1 E1.
-    apply set_once_spec in H. destruct H as [Hn ->].
-    set (y := opp ((f0 + f1 + qc) * inv (f + ql))).
-    split; [apply extends_set; exact Hn|].
-    destruct (getv_set _ _ _ _ xa y E Hn) as [R1 U1], (getv_set _ _ _ _ xa y E0 Hn) as [R2 U2],
-             (getv_set _ _ _ _ xa y E1 Hn) as [R3 U3].
-    unfold Solver.holds_sparse, Solver.sparse_eq. repeat split; try assumption; try apply uses_set_same.
-    rewrite val_set_same.
-    replace (qm * (y * val_or0 (set v xa y) xb)) with (y * (qm * val_or0 (set v xa y) xb)) by ring.
-    rewrite R1, R2, R3. unfold y. field. exact ND. }
+    intros H. bind_ok_as H as f E. bind_ok_as H as f0 E0. bind_ok_as H as f1 E1.
+    assert (G : forall y, v xa = None -> (f + ql <> 0 -> y = opp ((f0 + f1 + qc) * inv (f + ql))) ->
+                (f + ql = 0 -> f0 + f1 + qc = 0) ->
+                extends v (set v xa y) /\ holds_sparse (set v xa y) xa xb xc ql qr qo qm qc).
+    { intros y Hn Hy Hz. split; [apply extends_set; exact Hn|].
+      destruct (getv_set _ _ _ _ xa y E Hn) as [R1 U1], (getv_set _ _ _ _ xa y E0 Hn) as [R2 U2],
+               (getv_set _ _ _ _ xa y E1 Hn) as [R3 U3].
+      unfold Solver.holds_sparse, Solver.sparse_eq. repeat split; try assumption; try apply uses_set_same.
+      rewrite val_set_same.
+      replace (qm * (y * val_or0 (set v xa y) xb)) with (y * (qm * val_or0 (set v xa y) xb)) by ring.
+      rewrite R1, R2, R3.
+      destruct (eq_dec (f + ql) 0) as [ZD|ND].
+      - transitivity (y * (f + ql) + (f0 + f1 + qc)); [ring|]. rewrite ZD, (Hz ZD). ring.
+      - rewrite (Hy ND). field. exact ND. }
+    destruct (eq_dec (f + ql) 0) as [ZD|ND].
+    - destruct (eq_dec (f0 + f1 + qc) 0) as [ZN|]; [|discriminate].
+      apply set_once_spec in H. destruct H as [Hn ->]. apply G; [exact Hn|intros C; contradiction|intros _; exact ZN].
+    - apply set_once_spec in H. destruct H as [Hn ->]. apply G; [exact Hn|intros _; reflexivity|intros C; contradiction]. }
   destruct (solved F v xb) eqn:Sb; cbn [negb].
   2:{ (* solve for xb *)
-    intros H. bind_ok_as H as f E. destruct (eq_dec (f + qr) 0) as [|ND]; [discriminate|].
-    bind_ok_as H as f0 E0. bind_ok_as H as f1 E1.
-    apply set_once_spec in H. destruct H as [Hn ->].
-    set (y := opp ((f0 + f1 + qc) * inv (f + qr))).
-    split; [apply extends_set; exact Hn|].
-    destruct (getv_set _ _ _ _ xb y E Hn) as [R1 U1], (getv_set _ _ _ _ xb y E0 Hn) as [R2 U2],
-             (getv_set _ _ _ _ xb y E1 Hn) as [R3 U3].
-    unfold Solver.holds_sparse, Solver.sparse_eq. repeat split; try assumption; try apply uses_set_same.
-    rewrite val_set_same.
-    replace (qm * (val_or0 (set v xb y) xa * y)) with (y * (qm * val_or0 (set v xb y) xa)) by ring.
-    rewrite R1, R2, R3. unfold y. field. exact ND. }
+    intros H. bind_ok_as H as f E. bind_ok_as H as f0 E0. bind_ok_as H as f1 E1.
+    assert (G : forall y, v xb = None -> (f + qr <> 0 -> y = opp ((f0 + f1 + qc) * inv (f + qr))) ->
+                (f + qr = 0 -> f0 + f1 + qc = 0) ->
+                extends v (set v xb y) /\ holds_sparse (set v xb y) xa xb xc ql qr qo qm qc).
+    { intros y Hn Hy Hz. split; [apply extends_set; exact Hn|].
+      destruct (getv_set _ _ _ _ xb y E Hn) as [R1 U1], (getv_set _ _ _ _ xb y E0 Hn) as [R2 U2],
+               (getv_set _ _ _ _ xb y E1 Hn) as [R3 U3].
+      unfold Solver.holds_sparse, Solver.sparse_eq. repeat split; try assumption; try apply uses_set_same.
+      rewrite val_set_same.
+      replace (qm * (val_or0 (set v xb y) xa * y)) with (y * (qm * val_or0 (set v xb y) xa)) by ring.
+      rewrite R1, R2, R3.
+      destruct (eq_dec (f + qr) 0) as [ZD|ND].
+      - transitivity (y * (f + qr) + (f0 + f1 + qc)); [ring|]. rewrite ZD, (Hz ZD). ring.
+      - rewrite (Hy ND). field. exact ND. }
+    destruct (eq_dec (f + qr) 0) as [ZD|ND].
+    - destruct (eq_dec (f0 + f1 + qc) 0) as [ZN|]; [|discriminate].
+      apply set_once_spec in H. destruct H as [Hn ->]. apply G; [exact Hn|intros C; contradiction|intros _; exact ZN].
+    - apply set_once_spec in H. destruct H as [Hn ->]. apply G; [exact Hn|intros _; reflexivity|intros C; contradiction]. }
   destruct (solved F v xc) eqn:Sc; cbn [negb].
   2:{ (* solve for xc *)
     intros H. bind_ok_as H as f E. bind_ok_as H as f0 E0. bind_ok_as H as f1 E1. bind_ok_as H as f2 E2.
-    destruct (eq_dec qo 0) as [|ND]; [discriminate|].
-    apply set_once_spec in H. destruct H as [Hn ->].
-    set (y := opp ((f1 * f2 + f + f0 + qc) * inv qo)).
-    split; [apply extends_set; exact Hn|].
-    destruct (getv_set _ _ _ _ xc y E Hn) as [R1 U1], (getv_set _ _ _ _ xc y E0 Hn) as [R2 U2],
-             (getv_set _ _ _ _ xc y E1 Hn) as [R3 U3], (getv_set _ _ _ _ xc y E2 Hn) as [R4 U4].
-    unfold Solver.holds_sparse, Solver.sparse_eq. repeat split; try assumption; try apply uses_set_same.
-    { intros NE. apply U4. intros C. apply (F_1_neq_0 Fth). exact C. }
-    rewrite val_set_same.
-    replace (qm * (val_or0 (set v xc y) xa * val_or0 (set v xc y) xb))
-      with ((qm * val_or0 (set v xc y) xa) * (1 * val_or0 (set v xc y) xb)) by ring.
-    rewrite R1, R2, R3, R4. unfold y. field. exact ND. }
+    assert (G : forall y, v xc = None -> (qo <> 0 -> y = opp ((f1 * f2 + f + f0 + qc) * inv qo)) ->
+                (qo = 0 -> f1 * f2 + f + f0 + qc = 0) ->
+                extends v (set v xc y) /\ holds_sparse (set v xc y) xa xb xc ql qr qo qm qc).
+    { intros y Hn Hy Hz. split; [apply extends_set; exact Hn|].
+      destruct (getv_set _ _ _ _ xc y E Hn) as [R1 U1], (getv_set _ _ _ _ xc y E0 Hn) as [R2 U2],
+               (getv_set _ _ _ _ xc y E1 Hn) as [R3 U3], (getv_set _ _ _ _ xc y E2 Hn) as [R4 U4].
+      unfold Solver.holds_sparse, Solver.sparse_eq. repeat split; try assumption; try apply uses_set_same.
+      { intros NE. apply U4. intros C. apply (F_1_neq_0 Fth). exact C. }
+      rewrite val_set_same.
+      replace (qm * (val_or0 (set v xc y) xa * val_or0 (set v xc y) xb))
+        with ((qm * val_or0 (set v xc y) xa) * (1 * val_or0 (set v xc y) xb)) by ring.
+      rewrite R1, R2, R3, R4.
+      destruct (eq_dec qo 0) as [ZD|ND].
+      - transitivity (qo * y + (f1 * f2 + f + f0 + qc)); [ring|]. rewrite ZD, (Hz ZD). ring.
+      - rewrite (Hy ND). field. exact ND. }
+    destruct (eq_dec qo 0) as [ZD|ND].
+    - destruct (eq_dec (f1 * f2 + f + f0 + qc) 0) as [ZN|]; [|discriminate].
+      apply set_once_spec in H. destruct H as [Hn ->]. apply G; [exact Hn|intros C; contradiction|intros _; exact ZN].
+    - apply set_once_spec in H. destruct H as [Hn ->]. apply G; [exact Hn|intros _; reflexivity|intros C; contradiction]. }
   intros H. apply check_sparse_ok in H. destruct H as [-> H]. split; [apply extends_refl|exact H].
 Qed.
 
@@ -333,30 +360,61 @@ Ltac kill_bind H :=
 Tactic Notation "getv_ok" hyp(H) constr(v) constr(q) constr(x) "as" ident(r) ident(E) :=
   destruct (getv_cases v q x) as [[r E]|E]; rewrite E in H; cbn [bind] in H; [|discriminate].
 
+Tactic Notation "getv_ok" hyp(H) constr(v) constr(q) constr(x) "as" ident(r) ident(E) :=
+  destruct (getv_cases v q x) as [[r E]|E]; rewrite E in H; cbn [bind] in H; [|discriminate].
+
 Lemma step_sparse_err i v xa xb xc ql qr qo qm qc cm k j :
   step_sparse i v xa xb xc ql qr qo qm qc cm = Err k j -> k = EUnsat \/ k = EDivZero.
 Proof.
   unfold Solver.step_sparse. destruct cm; [discriminate|].
   destruct (negb (solved F v xa)).
-  { intros H. kill_bind H. destruct (eq_dec _ 0); [injection H as <- _; right; reflexivity|]. repeat kill_bind H. discriminate. }
+  { intros H. repeat kill_bind H. destruct (eq_dec _ 0).
+    - destruct (eq_dec _ 0); [repeat kill_bind H; discriminate|injection H as <- _; right; reflexivity].
+    - repeat kill_bind H. discriminate. }
   destruct (negb (solved F v xb)).
-  { intros H. kill_bind H. destruct (eq_dec _ 0); [injection H as <- _; right; reflexivity|]. repeat kill_bind H. discriminate. }
+  { intros H. repeat kill_bind H. destruct (eq_dec _ 0).
+    - destruct (eq_dec _ 0); [repeat kill_bind H; discriminate|injection H as <- _; right; reflexivity].
+    - repeat kill_bind H. discriminate. }
   destruct (negb (solved F v xc)).
-  { intros H. repeat kill_bind H. destruct (eq_dec qo 0); [injection H as <- _; right; reflexivity|]. repeat kill_bind H. discriminate. }
+  { intros H. repeat kill_bind H. destruct (eq_dec qo 0).
+    - destruct (eq_dec _ 0); [repeat kill_bind H; discriminate|injection H as <- _; right; reflexivity].
+    - repeat kill_bind H. discriminate. }
   unfold Solver.check_sparse. intros H. repeat kill_bind H. destruct (eq_dec _ 0); [discriminate|]. injection H as <- _. left; reflexivity.
 Qed.
 
-Lemma step_sparse_unsat i j v xa xb xc ql qr qo qm qc :
-  step_sparse i v xa xb xc ql qr qo qm qc false = Err EUnsat j ->
+(* both error classes of a sparse gate are final: no extension of the current values satisfies it *)
+Lemma step_sparse_unsat i j k v xa xb xc ql qr qo qm qc :
+  step_sparse i v xa xb xc ql qr qo qm qc false = Err k j ->
   forall v', extends v v' -> ~ holds_sparse v' xa xb xc ql qr qo qm qc.
 Proof.
   unfold Solver.step_sparse. cbn [negb].
   destruct (solved F v xa) eqn:Sa; cbn [negb].
-  2:{ intros H. kill_bind H. destruct (eq_dec _ 0); [discriminate|]. repeat kill_bind H. discriminate. }
+  2:{ intros H. getv_ok H v qm xb as f E. getv_ok H v qr xb as f0 E0. getv_ok H v qo xc as f1 E1.
+      destruct (eq_dec (f + ql) 0) as [ZD|ND]; [|repeat kill_bind H; discriminate].
+      destruct (eq_dec (f0 + f1 + qc) 0) as [|NN]; [repeat kill_bind H; discriminate|].
+      intros v' He (_ & _ & _ & _ & _ & Heq). apply NN. unfold Solver.sparse_eq in Heq.
+      replace (qm * (val_or0 v' xa * val_or0 v' xb)) with (val_or0 v' xa * (qm * val_or0 v' xb)) in Heq by ring.
+      rewrite (getv_ext _ _ _ _ _ E He), (getv_ext _ _ _ _ _ E0 He), (getv_ext _ _ _ _ _ E1 He) in Heq.
+      transitivity (val_or0 v' xa * (f + ql) + (f0 + f1 + qc)); [rewrite ZD; ring|].
+      etransitivity; [|exact Heq]. ring. }
   destruct (solved F v xb) eqn:Sb; cbn [negb].
-  2:{ intros H. kill_bind H. destruct (eq_dec _ 0); [discriminate|]. repeat kill_bind H. discriminate. }
+  2:{ intros H. getv_ok H v qm xa as f E. getv_ok H v ql xa as f0 E0. getv_ok H v qo xc as f1 E1.
+      destruct (eq_dec (f + qr) 0) as [ZD|ND]; [|repeat kill_bind H; discriminate].
+      destruct (eq_dec (f0 + f1 + qc) 0) as [|NN]; [repeat kill_bind H; discriminate|].
+      intros v' He (_ & _ & _ & _ & _ & Heq). apply NN. unfold Solver.sparse_eq in Heq.
+      replace (qm * (val_or0 v' xa * val_or0 v' xb)) with (val_or0 v' xb * (qm * val_or0 v' xa)) in Heq by ring.
+      rewrite (getv_ext _ _ _ _ _ E He), (getv_ext _ _ _ _ _ E0 He), (getv_ext _ _ _ _ _ E1 He) in Heq.
+      transitivity (val_or0 v' xb * (f + qr) + (f0 + f1 + qc)); [rewrite ZD; ring|].
+      etransitivity; [|exact Heq]. ring. }
   destruct (solved F v xc) eqn:Sc; cbn [negb].
-  2:{ intros H. repeat kill_bind H. destruct (eq_dec qo 0); [discriminate|]. repeat kill_bind H. discriminate. }
+  2:{ intros H. getv_ok H v ql xa as f E. getv_ok H v qr xb as f0 E0. getv_ok H v qm xa as f1 E1. getv_ok H v 1 xb as f2 E2.
+      destruct (eq_dec qo 0) as [ZD|ND]; [|repeat kill_bind H; discriminate].
+      destruct (eq_dec (f1 * f2 + f + f0 + qc) 0) as [|NN]; [repeat kill_bind H; discriminate|].
+      intros v' He (_ & _ & _ & _ & _ & Heq). apply NN. unfold Solver.sparse_eq in Heq.
+      replace (qm * (val_or0 v' xa * val_or0 v' xb)) with ((qm * val_or0 v' xa) * (1 * val_or0 v' xb)) in Heq by ring.
+      rewrite (getv_ext _ _ _ _ _ E He), (getv_ext _ _ _ _ _ E0 He), (getv_ext _ _ _ _ _ E1 He), (getv_ext _ _ _ _ _ E2 He) in Heq.
+      transitivity (qo * val_or0 v' xc + (f1 * f2 + f + f0 + qc)); [rewrite ZD; ring|].
+      etransitivity; [|exact Heq]. ring. }
   unfold Solver.check_sparse. intros H v' He (_ & _ & _ & _ & _ & Heq).
   apply solved_val in Sa, Sb, Sc.
   getv_ok H v ql xa as r1 E1.
@@ -496,14 +554,15 @@ Proof.
     destruct ok; [discriminate|]. injection H as <- _. right; reflexivity.
 Qed.
 
-Lemma step_unsat orc i j v ins : step orc i v ins = Err EUnsat j -> violated_forever v ins.
+Lemma step_unsat orc i j k v ins : step orc i v ins = Err k j -> k = EUnsat \/ k = EDivZero -> violated_forever v ins.
 Proof.
-  intros H. pose proof (step_err_kind _ _ _ _ _ _ H) as K.
+  intros H Hk. pose proof (step_err_kind _ _ _ _ _ _ H) as K.
   destruct ins as [cid l r o|cid xa xb xc ql qr qo qm qc cm|cid xa xb xc qm|cid xa xb xc ql qr qc|cid xa ql qm|hid ins start nout];
     cbn [Solver.step] in H; unfold violated_forever; cbn [Solver.holds]; try contradiction; try discriminate.
-  - eapply step_r1c_unsat; eassumption.
+  - subst k. eapply step_r1c_unsat; eassumption.
   - destruct cm; [discriminate|eapply step_sparse_unsat; eassumption].
-  - destruct K; discriminate.
+  - subst k. destruct Hk; discriminate.
+  - destruct K; subst k; destruct Hk; discriminate.
 Qed.
 
 Lemma step_bool_err orc i j v ins : step orc i v ins = Err EBool j -> violated_forever v ins.
@@ -522,21 +581,23 @@ Proof.
   unfold Solver.sparse_eq in Heq. rewrite (ext_val v v' xa He S) in Heq. etransitivity; [|exact Heq]. ring.
 Qed.
 
-Theorem run_err_violated orc : forall prog v j,
-  run orc v prog = Err EUnsat j \/ run orc v prog = Err EBool j ->
+Theorem run_err_violated orc : forall prog v k j,
+  run orc v prog = Err k j -> k = EUnsat \/ k = EDivZero \/ k = EBool ->
   exists pre i ins post v1, prog = pre ++ (i, ins) :: post /\ run orc v pre = Ok v1 /\ violated_forever v1 ins.
 Proof.
-  induction prog as [|[i ins] prog IH]; intros v j H; cbn [Solver.run] in H.
-  - destruct H; discriminate.
-  - destruct (step orc i v ins) as [v1|k i0|] eqn:E; cbn [bind] in H.
-    + destruct (IH v1 j H) as (pre & i1 & ins1 & post & v2 & -> & Hr & Hv).
+  induction prog as [|[i ins] prog IH]; intros v k j H Hk; cbn [Solver.run] in H.
+  - discriminate.
+  - destruct (step orc i v ins) as [v1|k0 i0|] eqn:E; cbn [bind] in H.
+    + destruct (IH v1 k j H Hk) as (pre & i1 & ins1 & post & v2 & -> & Hr & Hv).
       exists ((i, ins) :: pre), i1, ins1, post, v2. split; [reflexivity|]. split; [|exact Hv].
       cbn [Solver.run]. rewrite E. cbn [bind]. exact Hr.
     + exists [], i, ins, prog, v. split; [reflexivity|]. split; [reflexivity|].
-      destruct H as [H|H]; injection H as -> ->.
-      * eapply step_unsat; eassumption.
-      * eapply step_bool_err; eassumption.
-    + destruct H; discriminate.
+      injection H as -> ->.
+      destruct Hk as [Hk|[Hk|Hk]].
+      * eapply step_unsat; [eassumption|left; exact Hk].
+      * eapply step_unsat; [eassumption|right; exact Hk].
+      * subst k. eapply step_bool_err; eassumption.
+    + discriminate.
 Qed.
 
 (* ------------------------------------------------------------ whole solve *)
